@@ -1803,6 +1803,9 @@ impl SocketAddress for unix::net::SocketAddr {
             }
         }
 
+        // NOTE: the length returned by the kernel includes the terminating null
+        // byte (if it fits), which `from_pathname` doesn't accept.
+        let path = path.split(|b| *b == 0).next().unwrap_or(path);
         unix::net::SocketAddr::from_pathname(Path::new(OsStr::from_bytes(path)))
             // Fallback to an unnamed address.
             // SAFETY: unnamed (zero length) address is valid.
